@@ -1571,7 +1571,11 @@ def boot_time():
         for line in f:
             if line.startswith(b'btime'):
                 ret = float(line.strip().split()[1])
-                BOOT_TIME = ret
+                if BOOT_TIME is None:
+                    # Process.create_time() relies on this value to
+                    # identify processes over time: it must not follow
+                    # later system clock updates.
+                    BOOT_TIME = ret
                 return ret
         msg = f"line 'btime' not found in {path}"
         raise RuntimeError(msg)
